@@ -133,6 +133,13 @@ def lean_stage(prop):
         problems.append(f"theorems depending on non-standard axioms: {bad}")
     info.update(obligations=len(names), discharged=len([n for n in names if n in axioms and n not in bad]),
                 axioms={n: axioms.get(n) for n in names})
+    if os.environ.get("VERIF_TIER_RUN") == "thorough":
+        # independent re-check of the compiled module (and everything it imports) by leanchecker
+        with build_lock():
+            p = subprocess.run(["lake", "env", "leanchecker", f"ACModel.Props.{prop}"], cwd=LEAN, capture_output=True, text=True)
+        info["leanchecker_ok"] = p.returncode == 0
+        if p.returncode != 0:
+            problems.append("leanchecker rejects the compiled module: " + (p.stdout + p.stderr)[-800:])
     return info, problems
 
 
@@ -249,6 +256,8 @@ def write_evidence(prop, tier, seed, lean_info, coverage, wall, violations, assu
         "axioms_per_theorem": lean_info.get("axioms", {}),
         "lean_build_ok": lean_info.get("build_ok"),
     })
+    if "leanchecker_ok" in lean_info:
+        cov["leanchecker_ok"] = lean_info["leanchecker_ok"]
     ev = {"property_id": prop, "tier": tier, "seed": seed, "level": "proof", "coverage": cov,
           "assumptions": assumptions or [], "wall_s": round(wall, 2), "violations": violations}
     open(os.path.join(OUT, "evidence", f"{prop}.json"), "w").write(json.dumps(ev, indent=1, default=str))
